@@ -118,6 +118,11 @@ func NewFactory(p *config.MechanismPrototypes) (mechanisms.MechanismFactory, err
 		&watcher.NoopWatcher{}, noKeys{}, noObserver{})
 }
 
+// NewFactoryWatched is NewFactory with the given file watcher (to deliver key store reloads).
+func NewFactoryWatched(p *config.MechanismPrototypes, w watcher.Watcher) (mechanisms.MechanismFactory, error) {
+	return mechanisms.NewMechanismFactory(&config.Configuration{Prototypes: p}, zerolog.Nop(), w, noKeys{}, noObserver{})
+}
+
 // NewMemoryCache returns a started instance of the real in-memory cache.
 func NewMemoryCache() cache.Cache {
 	c, _ := memory.NewCache(nil, nil, nil)
